@@ -268,8 +268,8 @@ func emit(s *spec) {
 				ls := strings.Split(string(b), "\n")
 				if ve.Pos.Line >= 1 && ve.Pos.Line <= len(ls) {
 					srcLine = strings.Join(strings.Fields(ls[ve.Pos.Line-1]), " ")
-					if len(srcLine) > 160 {
-						srcLine = srcLine[:160]
+					if len(srcLine) > 400 {
+						srcLine = srcLine[:400]
 					}
 				}
 			}
